@@ -298,6 +298,19 @@ fn run_conc_check(context: &CheckContext, mut outcome: CheckOutcome) -> CheckOut
             return outcome;
         }
     }
+    if matches!(context.property.as_str(), "C03" | "C05" | "C09" | "C10" | "C16") {
+        // bulk histories against a plain map (VOLUME engine)
+        let run_case: std::sync::Arc<dyn Fn(&crate::volume::VolCase) -> CaseResult + Send + Sync> = std::sync::Arc::new(|case: &crate::volume::VolCase| crate::volume::vol_case_result(case));
+        let (report, found) = run_campaign_with(context, "volume", "VOLUME",
+            "generated bulk histories in a cache far from full, against a plain map: 1 500 - 20 000 keys (up to 100 000 in the thorough tier) are put unawaited (every n-th with a TTL of 1..span seconds), a third is upserted (new value, lower weight, TTL set or removed), a quarter deleted, an eighth put again, then the clock walks second by second past half and then all of the deadlines; after each phase every key is read and compared, the store, the weight map and the expiry index must hold exactly the model's keys, the total weight must be their sum, and every counter (hits, misses, keys added / deleted, weight added / removed, access records) must be exact; configurations with 2 - 1024 expiry shards, queues of 1 - 4096, pools of 1 - 32; non-trivial = at least 1 000 commands executed",
+            if thorough { 160 } else { 24 }, std::sync::Arc::new(move || crate::volume::vol_case_strategy(thorough)), run_case, false, context.workers.min(8));
+        outcome.reports.push(report);
+        if let Some((case, failure)) = found {
+            let replay = Replay { property: context.property.clone(), engine: "VOLUME".to_string(), campaign: "volume".to_string(), seed: context.seed, case: serde_json::to_value(&case).unwrap(), policy: json!({}), failure: Some(failure.clone()), note: "bulk history; deterministic up to thread timing".to_string() };
+            outcome.violations.push(Violation { replay_path: write_replay(&replay), failure });
+            return outcome;
+        }
+    }
     if context.property == "C16" {
         // volume: the sweeper and the command worker remove thousands of keys at the same time
         let started = std::time::Instant::now();
@@ -516,6 +529,7 @@ pub fn replay_file(property: &str, path: &str) -> i32 {
     let result = match replay.engine.as_str() {
         "SEQ" => replay_seq(&replay),
         "DIRECTED-F11" => Ok((0..20).find_map(|_| crate::conc::sweep_vs_reput_scenario(replay.case["delay_ms"].as_u64().unwrap_or(20)))),
+        "VOLUME" => decode_case::<crate::volume::VolCase>(&replay.case).map(|case| crate::volume::run_vol_case(&case).1),
         "DIRECTED-C16" => Ok((0..10).find_map(|_| crate::conc::stats_stress_scenario(replay.case["n"].as_u64().unwrap_or(20_000), replay.case["shards"].as_u64().unwrap_or(2) as usize))),
         "DIRECTED-F12" => Ok((0..20).find_map(|_| crate::conc::phantom_weight_scenario(replay.case["delay_ms"].as_u64().unwrap_or(20)))),
         "CONC" => decode_case::<crate::conc::ConcCase>(&replay.case).map(|case| {
